@@ -10,8 +10,9 @@ from gen import canon as G
 
 ID = "C18"
 PROPS = ["IsoVerif/Props/C18.lean", "IsoVerif/Props/C18Strand.lean", "IsoVerif/Props/C18Window.lean",
-         "IsoVerif/Props/C18Attr.lean"]
-TARGETS = ["IsoVerif.Props.C18", "IsoVerif.Props.C18Strand", "IsoVerif.Props.C18Window", "IsoVerif.Props.C18Attr"]
+         "IsoVerif/Props/C18Attr.lean", "IsoVerif/Props/C18Reflect.lean", "IsoVerif/Props/C18Downstream.lean"]
+TARGETS = ["IsoVerif.Props.C18", "IsoVerif.Props.C18Strand", "IsoVerif.Props.C18Window", "IsoVerif.Props.C18Attr",
+           "IsoVerif.Props.C18Reflect", "IsoVerif.Props.C18Downstream"]
 GEN_DEPS = ["Constants", "GeneAttributes"]
 LEVEL = "proof"
 RULE = ("in-process: random reference sequences over {A,C,G,T,N} in mixed case with planted GT-AG/GC-AG/AT-AC/CT-AC/CT-GC/GT-AT "
@@ -27,7 +28,14 @@ RULE = ("in-process: random reference sequences over {A,C,G,T,N} in mixed case w
         "--report_canonical levels), every Canonical flag and novel strand recomputed from the FASTA; re-runs whose --genedb is "
         "the extended annotation of the first run with one Canonical value falsified (exactly one Canonical attribute per "
         "transcript line, equal to the recomputed value); monitor of the interface hypothesis ReadOk on every record of "
-        "read_assignments.tsv / corrected_reads.bed")
+        "read_assignments.tsv / corrected_reads.bed; "
+        "sqanti_rows: gene regions through the real ReadAssignmentLoader (reference_flank 20 / 0 / 5) and direct windows, rows of "
+        "the real SqantiTSVPrinter for spans on '+', '-', '.' at window and contig borders with A/T-rich flanks; non-trivial when "
+        "a downstream window holds at least one base; "
+        "pipeline option sets: --sqanti_output (prefix X1; all_canonical / perc_A / seq_A columns recomputed from the FASTA), "
+        "--no_model_construction, no --check_canonical (strand clauses only), plain-gzip reference + 3 threads + --genedb_output, "
+        "--read_assignments restart, the toy data of /repo, crafted novel loci (uninformative sites + tails, 1:1 ties, sites "
+        "against tails)")
 TRUSTED = ["Gen/Constants.lean CANONICAL_FWD/REV_SITES are re-extracted from src/common.py each run and pinned to the literal "
            "GT-AG/GC-AG/AT-AC (+ reverse complements) by theorem tables_literal",
            "Python str slicing s[a:b] (negative indices, clamping) = Model.pySlice (cross-checked each run on out-of-range introns)",
@@ -41,7 +49,10 @@ TRUSTED = ["Gen/Constants.lean CANONICAL_FWD/REV_SITES are re-extracted from src
            "a real in-memory gffutils database created with the options of src/gtf2db.py"]
 ASSUMPTIONS = ["reference sequences are ASCII (FASTA)", "the strand argument is one of '+', '-', '.'",
                "dict semantics: first insertion wins until overwritten; modelled as an association list with lookup of the newest entry",
-               "reading rule (DESIGN §6): a record whose reported strand is '.' has an unconstrained Canonical flag",
+               "reading rule (proposed for DESIGN §6 by builder c18x, replaces 'not constrained'): a record (read or transcript model) "
+               "whose reported strand is '.' is Canonical=True iff its whole intron chain is canonical on '+' or on '-' - hence the same "
+               "for a locus and its mirror image (C11); the downstream-A columns of such a SQANTI row are NA",
+               "SQANTI columns: perc_A_downstream_TTS is compared as a number (|printed - count/n| < 1e-9; n = 20 gives two decimals)",
                "reading: a lower-case (soft-masked) base is the same nucleotide as its upper-case form",
                "reading: 'the Canonical attribute of a transcript model' = the transcript line carries exactly one Canonical attribute "
                "(a GTF reader may keep the first or the last value of a repeated key) and it is the recomputed flag",
@@ -83,7 +94,10 @@ def expected_flag(seq, introns, strand, start=1):
     if not introns:
         return "Unspliced"
     if strand not in "+-":
-        return None
+        # unknown strand: canonical iff the whole chain is canonical on one of the two strands (the value must not depend on
+        # the orientation of the locus: C11)
+        a, b = expected_flag(seq, introns, "+", start), expected_flag(seq, introns, "-", start)
+        return None if (a is None or b is None) else (a or b)
     res = True
     for it in introns:
         p = pair_at(seq, it, start)
@@ -92,6 +106,26 @@ def expected_flag(seq, introns, strand, start=1):
         res = res and canonical_on(p, strand)
     return res
 
+
+
+_COMP = {"A": "T", "C": "G", "G": "C", "T": "A", "a": "t", "c": "g", "g": "c", "t": "a"}
+
+
+def revcomp_any(seq):
+    """reverse complement keeping the case (soft-masked bases stay soft-masked), N and anything else unchanged"""
+    return "".join(_COMP.get(c, c) for c in reversed(seq))
+
+
+def chrom_downstream(chrom, first, last, strand, n):
+    """the n bases behind the 3' end of a transcript first..last (1-based closed) on `strand`, as they read on the forward
+    strand of the FASTA, clipped at the ends of the contig; independent of /repo"""
+    if strand == "+":
+        return chrom[last:last + n]
+    return chrom[max(0, first - 1 - n):max(0, first - 1)]
+
+
+def downstream_count(seq, strand):
+    return seq.upper().count("A" if strand == "+" else "T")
 
 # ------------------------------------------------------------------------------------------------
 # pipeline oracle: every Canonical flag / novel strand of a real run recomputed from the FASTA
@@ -106,7 +140,26 @@ PIPE_CONFIGS = [
     ("threads2", ["--report_canonical", "only_stranded"], True),
     ("pacbio", [], True),
     ("high_memory", ["--high_memory", "--report_canonical", "all"], True),
+    # option sets of audit-2 G-C18-2 (the prefix X1 is no substring of a file suffix: `-p S` breaks merge_files' rreplace)
+    ("sqanti", ["--sqanti_output", "--report_canonical", "all"], True),
+    ("no_model_construction", ["--no_model_construction"], True),
+    ("no_check_canonical", ["--report_canonical", "all"], True),
+    ("gzref_threads3_genedb_output", ["--report_canonical", "only_stranded"], True),
+    ("restart", [], True),
+    ("sqanti_pacbio", ["--sqanti_output"], True),
 ]
+# per-config options of pipeline_case
+PIPE_OPTS = {
+    "sqanti": {"prefix": "X1", "sqanti": True},
+    "sqanti_pacbio": {"prefix": "X1", "sqanti": True, "data_type": "pacbio_ccs"},
+    "no_model_construction": {"prefix": "X1"},
+    "no_check_canonical": {"prefix": "X1", "check_canonical": False},
+    "gzref_threads3_genedb_output": {"prefix": "X1", "gzref": True, "threads": 3, "genedb_output": True},
+    "restart": {"prefix": "X1", "restart": True},
+    "threads2": {"threads": 2},
+    "pacbio": {"data_type": "pacbio_ccs"},
+}
+SQANTI_N = 20          # args.upstream_region_len (isoquant.py; no CLI option)
 
 
 def _parse_exons(txt):
@@ -204,7 +257,58 @@ def _bed_exons(row):
     return [(st + b + 1, st + b + sz) for b, sz in zip(starts, sizes)]
 
 
-def check_pipeline_outputs(ds, outdir, prefix, with_genedb, rerun=False):
+def check_sqanti_table(ds, path, models, fails, stats):
+    """the reference-derived columns of <prefix>.novel_vs_known.SQANTI-like.tsv against the FASTA: all_canonical (16),
+    perc_A_downstream_TTS (37), seq_A_downstream_TTS (38); `models` = transcript id -> model of transcript_models.gtf"""
+    with open(path) as f:
+        for l in f:
+            p = l.rstrip("\n").split("\t")
+            if len(p) < 39 or p[0] in ("#isoform", "isoform"):
+                continue
+            stats["sqanti_rows"] = stats.get("sqanti_rows", 0) + 1
+            t = models.get(p[0])
+            if t is None or "attrs" not in t:
+                fails.append(("sqanti_row_without_model", {"isoform": p[0]}))
+                continue
+            seq = ds.chroms[t["chr"]]
+            ex = sorted(t["exons"])
+            introns = _introns(ex)
+            strand = p[2]
+            if strand != t["strand"]:
+                fails.append(("sqanti_strand", {"isoform": p[0], "row": strand, "gtf": t["strand"]}))
+                continue
+            exp = expected_flag(seq, introns, strand)
+            exp = True if exp == "Unspliced" else exp      # "TRUE if all junctions have canonical splice sites": no junction
+            if exp is not None:
+                stats["sqanti_all_canonical_" + str(exp).lower()] = stats.get("sqanti_all_canonical_" + str(exp).lower(), 0) + 1
+                if p[16] != str(exp):
+                    fails.append(("sqanti_all_canonical", {"isoform": p[0], "chr": t["chr"], "strand": strand, "introns": introns,
+                                                           "column": p[16], "expected": str(exp)}))
+            if strand in "+-":
+                w = chrom_downstream(seq, ex[0][0], ex[-1][1], strand, SQANTI_N)
+                expc = downstream_count(w, strand) / float(SQANTI_N)
+                stats["sqanti_windows_" + ("plus" if strand == "+" else "minus")] = stats.get("sqanti_windows_" + ("plus" if strand == "+" else "minus"), 0) + 1
+                if len(w) < SQANTI_N:
+                    stats["sqanti_windows_clipped_at_contig"] = stats.get("sqanti_windows_clipped_at_contig", 0) + 1
+                if expc > 0:
+                    stats["sqanti_windows_with_tail_bases"] = stats.get("sqanti_windows_with_tail_bases", 0) + 1
+                try:
+                    okp = abs(float(p[37]) - expc) < 1e-9
+                except ValueError:
+                    okp = False
+                if p[38] != w or not okp:
+                    fails.append(("sqanti_downstream_window", {"isoform": p[0], "chr": t["chr"], "strand": strand, "first": ex[0][0],
+                                                               "last": ex[-1][1], "perc_A_downstream_TTS": p[37],
+                                                               "seq_A_downstream_TTS": p[38], "expected_seq": w,
+                                                               "expected_perc": "%.2f" % expc, "chr_len": len(seq)}))
+            else:
+                stats["sqanti_rows_dot"] = stats.get("sqanti_rows_dot", 0) + 1
+                if (p[37], p[38]) != ("NA", "NA"):
+                    fails.append(("sqanti_downstream_unknown_strand", {"isoform": p[0], "chr": t["chr"], "strand": strand,
+                                                                       "perc_A_downstream_TTS": p[37], "seq_A_downstream_TTS": p[38]}))
+
+
+def check_pipeline_outputs(ds, outdir, prefix, with_genedb, rerun=False, check_canonical=True, sqanti=False, strand_clauses=True):
     """-> (list of (kind, detail-dict), stats).  `rerun`: the reference of this run was the extended annotation of an earlier
     --check_canonical run (the novel-strand clauses, which need the annotation of the data set, are not evaluated then)"""
     import pipeline
@@ -245,9 +349,15 @@ def check_pipeline_outputs(ds, outdir, prefix, with_genedb, rerun=False):
             if kv.startswith("Canonical="):
                 flag = _flag_of(kv[len("Canonical="):].rstrip(";"))
         if flag is None:
-            # records without an isoform match (intergenic) carry no Canonical flag: nothing to check
+            # records without an isoform match (intergenic) carry no Canonical flag: nothing to check; a MATCHED record of a
+            # --check_canonical run must carry one (audit-2 G-C18-1)
             stats["read_no_flag"] = stats.get("read_no_flag", 0) + 1
+            if check_canonical and row.get("isoform_id") not in (None, "", ".", "*"):
+                fails.append(("read_flag_missing", {"read": row["read_id"], "chr": row["chr"], "isoform": row["isoform_id"],
+                                                    "additional_info": info}))
             continue
+        if row.get("isoform_id") not in (None, "", ".", "*"):
+            stats["matched_reads_with_flag"] = stats.get("matched_reads_with_flag", 0) + 1
         exons = _parse_exons(row["exons"])
         introns = _introns(exons)
         exp = expected_flag(ds.chroms[row["chr"]], introns, row["strand"])
@@ -259,6 +369,8 @@ def check_pipeline_outputs(ds, outdir, prefix, with_genedb, rerun=False):
         if exp is None:
             stats["read_dot"] += 1
             continue
+        if row["strand"] not in "+-" and introns:
+            stats["spliced_read_flags_unknown_strand"] = stats.get("spliced_read_flags_unknown_strand", 0) + 1
         stats["read_flags_" + {True: "true", False: "false", "Unspliced": "unspliced"}[exp]] += 1
         if flag != exp:
             fails.append(("read_canonical_flag", {"read": row["read_id"], "chr": row["chr"], "strand": row["strand"],
@@ -297,7 +409,10 @@ def check_pipeline_outputs(ds, outdir, prefix, with_genedb, rerun=False):
             seq = ds.chroms[t["chr"]]
             exp = expected_flag(seq, introns, t["strand"])
             if not flags:
-                fails.append(("model_flag_missing", {"file": fn, "transcript": tid}))
+                if check_canonical:
+                    fails.append(("model_flag_missing", {"file": fn, "transcript": tid}))
+                else:
+                    stats["models_without_check_canonical"] = stats.get("models_without_check_canonical", 0) + 1
             else:
                 stats["model_flags"] += 1
                 if introns and min(e[0] for e in t["exons"]) <= 25:
@@ -330,6 +445,8 @@ def check_pipeline_outputs(ds, outdir, prefix, with_genedb, rerun=False):
             if rerun:
                 stats["rerun_model_lines"] = stats.get("rerun_model_lines", 0) + 1
                 continue
+            if not strand_clauses:
+                continue
             is_novel = tid.endswith(".nic") or tid.endswith(".nnic")
             if novel_check and is_novel and introns:
                 stats["novel_models"] += 1
@@ -358,6 +475,13 @@ def check_pipeline_outputs(ds, outdir, prefix, with_genedb, rerun=False):
                     if sst.count("+") != sst.count("-"):
                         fails.append(("novel_strand_disagrees_with_sites", detail))
         stats["antisense_pairs_flag_differs"] += sum(1 for v in by_exons.values() if len(v) == 2 and v.get("+") != v.get("-"))
+    if sqanti:
+        sq = files.get("%s.novel_vs_known.SQANTI-like.tsv" % prefix)
+        tm = files.get("%s.transcript_models.gtf" % prefix)
+        if not sq or not tm:
+            fails.append(("pipeline_output_missing", {"file": "novel_vs_known.SQANTI-like.tsv" if not sq else "transcript_models.gtf"}))
+        else:
+            check_sqanti_table(ds, sq, _gtf_transcripts(tm), fails, stats)
     return fails, stats
 
 
@@ -379,26 +503,115 @@ def falsify_reference(src, dst):
     return flipped
 
 
+def toy_dataset(toy):
+    """the toy data of /repo as a dataset-like object: chromosomes of the FASTA, genes / transcripts of the GTF"""
+    import gzip
+    import pipeline
+    chroms, name = {}, None
+    with gzip.open(toy["ref"], "rt") as f:
+        for l in f:
+            if l.startswith(">"):
+                name = l[1:].split()[0]
+                chroms[name] = []
+            else:
+                chroms[name].append(l.strip())
+    chroms = {k: "".join(v) for k, v in chroms.items()}
+    genes = {}
+    for r in pipeline.parse_gtf(toy["gtf"]):
+        if r["feature"] == "exon":
+            g = genes.setdefault(r["attrs"]["gene_id"], {"chr": r["chr"], "gene_id": r["attrs"]["gene_id"], "strand": r["strand"], "tx": {}})
+            g["tx"].setdefault(r["attrs"]["transcript_id"], []).append((r["start"], r["end"]))
+    gl = [dict(g, transcripts=[(t, sorted(ex)) for t, ex in g["tx"].items()]) for g in genes.values()]
+    return types.SimpleNamespace(chroms=chroms, genes=gl, reads=[])
+
+
+def check_strand_loci(ds, truth, outdir, prefix, fails, stats):
+    """crafted novel loci (audit-2 G-C18-3): every novel model reported inside a locus must carry the strand the statement
+    demands there: the majority of the splice sites; on a tie the tails; (sites against tails: the sites)"""
+    import pipeline
+    tm = pipeline.out_files(outdir, prefix).get("%s.transcript_models.gtf" % prefix)
+    if not tm:
+        return
+    tx = _gtf_transcripts(tm)
+    for loc in truth["strand_loci"]:
+        lo, hi = loc["exons"][0][0], loc["exons"][-1][1]
+        hits = [(tid, t) for tid, t in tx.items() if "attrs" in t and t["chr"] == loc["chr"] and t["exons"] and
+                min(e[0] for e in t["exons"]) >= lo - 50 and max(e[1] for e in t["exons"]) <= hi + 50 and len(t["exons"]) > 1]
+        stats["strand_loci"] = stats.get("strand_loci", 0) + 1
+        stats["strand_loci_reported"] = stats.get("strand_loci_reported", 0) + (1 if hits else 0)
+        stats["strand_loci:%s:%s" % (loc["kind"], "reported" if hits else "not_reported")] = \
+            stats.get("strand_loci:%s:%s" % (loc["kind"], "reported" if hits else "not_reported"), 0) + 1
+        for tid, t in hits:
+            if loc["expected"] is not None and t["strand"] != loc["expected"]:
+                kind = "novel_strand_disagrees_with_sites" if loc["by"] == "sites" else "novel_strand_disagrees_with_tail"
+                fails.append((kind, {"transcript": tid, "chr": t["chr"], "strand": t["strand"], "expected": loc["expected"],
+                                     "locus": loc["kind"], "site_pairs": loc["pairs"], "polya": loc["polya"], "polyt": loc["polyt"]}))
+
+
 def pipeline_case(inp):
     """run the real pipeline on the dataset described by `inp`; -> (failures, stats).
     With `inp["rerun"]`: a second run whose --genedb is the extended annotation of the first (--check_canonical) run with one
-    Canonical value falsified; the failures / stats of the second run are appended"""
+    Canonical value falsified; the failures / stats of the second run are appended.
+    `dataset`: "antisense" (default), "strand" (crafted novel loci), "toy" (the toy data of /repo).
+    Options: prefix, check_canonical (default True), sqanti, gzref (plain-gzip reference), genedb_output, restart (a second run
+    from the saved read assignments of the first, --read_assignments; its outputs are the ones checked)"""
+    import gzip
     import pipeline
-    ds, _ = G.antisense_dataset(inp["seed"], n_chroms=inp.get("n_chroms", 2), loci_per_chrom=inp.get("loci", 4),
-                                reads_per_tx=inp.get("reads_per_tx", 5), lower_frac=inp.get("lower_frac", 0.0))
     d = pipeline.scratch("isoverif_C18_")
     try:
-        paths = ds.write(os.path.join(d, "data"))
+        kind = inp.get("dataset", "antisense")
+        truth = {}
+        if kind == "toy":
+            paths = pipeline.copy_toy(os.path.join(d, "data"))
+            ds = toy_dataset(paths)
+        else:
+            if kind == "strand":
+                ds, truth = G.strand_evidence_dataset(inp["seed"])
+            else:
+                ds, _ = G.antisense_dataset(inp["seed"], n_chroms=inp.get("n_chroms", 2), loci_per_chrom=inp.get("loci", 4),
+                                            reads_per_tx=inp.get("reads_per_tx", 5), lower_frac=inp.get("lower_frac", 0.0))
+            paths = ds.write(os.path.join(d, "data"))
+        if inp.get("gzref"):
+            gz = os.path.join(d, "data", "refgz.fa.gz")          # plain gzip, not BGZF: IsoQuant unpacks it into the output folder
+            with open(paths["ref"], "rb") as f, gzip.open(gz, "wb") as g:
+                g.write(f.read())
+            paths = dict(paths, ref=gz)
         out = os.path.join(d, "out")
-        extra = ["--check_canonical"] + list(inp.get("args", []))
+        prefix = inp.get("prefix", "S")
+        check = inp.get("check_canonical", True)
+        genedb = inp.get("genedb", True)
+        extra = (["--check_canonical"] if check else []) + list(inp.get("args", []))
+        if inp.get("genedb_output"):
+            extra += ["--genedb_output", os.path.join(d, "dbout")]
         env = {"PYTHONHASHSEED": inp.get("hashseed", 0)}
-        kw = dict(prefix="S", threads=inp.get("threads", 1), data_type=inp.get("data_type", "nanopore"))
-        rc, log = pipeline.run_isoquant(out, pipeline.std_args(paths, genedb=inp.get("genedb", True), extra=extra, **kw), env=env)
+        kw = dict(prefix=prefix, threads=inp.get("threads", 1), data_type=inp.get("data_type", "nanopore"))
+        ckw = dict(check_canonical=check, sqanti=bool(inp.get("sqanti")), strand_clauses=kind != "toy")
+        first_extra = extra + (["--keep_tmp"] if inp.get("restart") else [])
+        rc, log = pipeline.run_isoquant(out, pipeline.std_args(paths, genedb=genedb, extra=first_extra, **kw), env=env)
         if rc != 0:
             return [("pipeline_crashed", {"rc": rc, "log": log[-1500:]})], {}
-        fails, stats = check_pipeline_outputs(ds, out, "S", inp.get("genedb", True))
+        if inp.get("restart"):
+            aux = os.path.join(out, prefix, "aux")
+            saves = sorted(set(f.split(".save")[0] + ".save" for f in (os.listdir(aux) if os.path.isdir(aux) else []) if ".save" in f))
+            if not saves:
+                return [("pipeline_output_missing", {"file": "aux/<prefix>.save*"})], {}
+            first = {fn: pipeline.strip_cmdline(open(pth).read()) for fn, pth in pipeline.out_files(out, prefix).items()
+                     if fn.endswith(("read_assignments.tsv", "transcript_models.gtf", "extended_annotation.gtf"))}
+            out = os.path.join(d, "out_restart")
+            rc, log = pipeline.run_isoquant(out, pipeline.std_args(paths, genedb=genedb, extra=extra + ["--read_assignments", os.path.join(aux, saves[0])], **kw), env=env)
+            if rc != 0:
+                return [("pipeline_crashed", {"rc": rc, "run": "restart from saved read assignments", "log": log[-1500:]})], {}
+        fails, stats = check_pipeline_outputs(ds, out, prefix, genedb, **ckw)
+        if inp.get("restart"):
+            stats["restart_runs"] = 1
+            for fn, txt in first.items():
+                pth = pipeline.out_files(out, prefix).get(fn)
+                if pth and pipeline.strip_cmdline(open(pth).read()) == txt:
+                    stats["restart_files_identical"] = stats.get("restart_files_identical", 0) + 1
+        if kind == "strand":
+            check_strand_loci(ds, truth, out, prefix, fails, stats)
         if inp.get("rerun"):
-            ext = pipeline.out_files(out, "S").get("S.extended_annotation.gtf")
+            ext = pipeline.out_files(out, prefix).get("%s.extended_annotation.gtf" % prefix)
             if not ext:
                 return fails + [("pipeline_output_missing", {"file": "extended_annotation.gtf"})], stats
             ref2 = os.path.join(d, "data", "ref2.gtf")
@@ -407,7 +620,7 @@ def pipeline_case(inp):
             rc, log = pipeline.run_isoquant(out2, pipeline.std_args(dict(paths, gtf=ref2), genedb=True, extra=extra, **kw), env=env)
             if rc != 0:
                 return fails + [("pipeline_crashed", {"rc": rc, "run": "second", "log": log[-1500:]})], stats
-            f2, s2 = check_pipeline_outputs(ds, out2, "S", True, rerun=True)
+            f2, s2 = check_pipeline_outputs(ds, out2, prefix, True, rerun=True)
             for k_, d_ in f2:
                 d_.update(run="second (reference = extended annotation of the first run)", falsified=flipped)
             fails += f2
@@ -493,7 +706,15 @@ def _gene_ref_via_loader(M, kw):
             prev = lg.level
             lg.setLevel(100)
             try:
-                ld = DP.ReadAssignmentLoader(path, None, kw["chrom"], None)
+                if kw.get("flank"):
+                    # reference_flank: what construct_models_in_parallel passes with --sqanti_output (upstream_region_len);
+                    # a tree whose loader does not know the parameter loads the window of the reads only
+                    try:
+                        ld = DP.ReadAssignmentLoader(path, None, kw["chrom"], None, reference_flank=kw["flank"])
+                    except TypeError:
+                        ld = DP.ReadAssignmentLoader(path, None, kw["chrom"], None)
+                else:
+                    ld = DP.ReadAssignmentLoader(path, None, kw["chrom"], None)
                 gi, storage = ld.get_next()
             finally:
                 lg.setLevel(prev)
@@ -582,6 +803,36 @@ def impl_read_fields(kw):
             if kv.startswith("Canonical="):
                 f = kv[len("Canonical="):].rstrip(";")
         out.append(f)
+    res = {"out": out, "memo": _memo(gi)}
+    pr.output_file = _io.StringIO()      # __del__ closes it
+    return res
+
+
+def impl_sqanti_rows(kw):
+    """the reference-derived columns (all_canonical, seq_A_downstream_TTS, perc_A_downstream_TTS) of the rows the real
+    SqantiTSVPrinter.add_read_info writes for transcript-vs-reference assignments of one gene region (intergenic stub
+    assignments: the other columns are 'NA'); -> out = [[all_canonical | None, seq | None, perc | None], ...] (None = 'NA')"""
+    import io as _io
+    M = _impl()
+    gi = _gene_ref(M, kw)
+    if not hasattr(gi, "chr_id"):
+        gi.chr_id = "chr1"
+    pr = M.AIO.SqantiTSVPrinter.__new__(M.AIO.SqantiTSVPrinter)
+    pr.params = types.SimpleNamespace(upstream_region_len=kw["n"])
+    pr.io_support = M.AIO.IOSupport(pr.params)
+    pr.output_file = _io.StringIO()
+    out = []
+    na = lambda x: None if x == "NA" else x
+    for i, (exons, strand) in enumerate(kw["rows"]):
+        ex = tl(exons)
+        ra = types.SimpleNamespace(read_id="transcript%d" % i, assignment_type=M.IA.ReadAssignmentType.intergenic, isoform_matches=[],
+                                   strand=strand, additional_info={"FSM_class": "C"}, exons=ex, introns_match=False, gene_info=gi,
+                                   length=lambda ex=ex: sum(b - a + 1 for a, b in ex), exon_count=lambda ex=ex: len(ex),
+                                   start=lambda ex=ex: ex[0][0], end=lambda ex=ex: ex[-1][1])
+        pos = pr.output_file.tell()
+        pr.add_read_info(ra)
+        p = pr.output_file.getvalue()[pos:].rstrip("\n").split("\t")
+        out.append([na(p[16]), na(p[38]), None if p[37] == "NA" else round(float(p[37]), 9)])
     res = {"out": out, "memo": _memo(gi)}
     pr.output_file = _io.StringIO()      # __del__ closes it
     return res
@@ -811,6 +1062,8 @@ def impl_call(op, kw):
             return impl_model_info(kw)
         if op == "read_fields":
             return impl_read_fields(kw)
+        if op == "sqanti_rows":
+            return impl_sqanti_rows(kw)
         if op == "attr_lines":
             return impl_attr_lines(kw)
         if op == "attr_tables":
@@ -820,7 +1073,7 @@ def impl_call(op, kw):
     raise RuntimeError("unknown op " + op)
 
 
-def canon_model_out(op, mo):
+def canon_model_out(op, mo, n=None):
     """canonicalise what came out of an association list"""
     if isinstance(mo, dict) and "memo" in mo:
         mo = dict(mo, memo=dedupe_first(mo["memo"], 2))
@@ -828,6 +1081,9 @@ def canon_model_out(op, mo):
         mo = dict(mo, dict=dedupe_first(mo["dict"], 1))
     if op == "tables" and isinstance(mo, dict):
         mo = {k: sorted(v) for k, v in mo.items()}
+    if op == "sqanti_rows" and isinstance(mo, dict) and "out" in mo and n:
+        # the model gives the count, the code prints count / n with two decimals (n in {4, 5, 10, 20}: exact)
+        mo = dict(mo, out=[[r[0], r[1], None if r[2] is None else round(r[2] / float(n), 9)] for r in mo["out"]])
     if op == "attr_tables" and isinstance(mo, dict) and "transcript_skip" in mo:
         mo = {k: (sorted(v) if isinstance(v, list) else v) for k, v in mo.items()}
     return mo
@@ -1022,6 +1278,10 @@ def gen_cases(ctx, rng=None):
         cases.append(("canon_history", dict(base, queries=qs[:6])))
         cases.append(("model_info", dict(base, models=[{"exons": r["cexons"], "strand": rng.choice("+-"), "attr": None} for r in reads])))
         cases.append(("model_info", dict(base, models=[{"exons": r["exons"], "strand": rng.choice("+-"), "attr": None} for r in reads])))
+    # the SQANTI-like table: all_canonical + the downstream-A window of transcript models, gene info from the real loader with
+    # reference_flank (20 = --sqanti_output, also 0 and 5), spans at the window / contig borders, A- and T-rich flanks
+    for _ in range(350 if quick else 4000):
+        cases.append(("sqanti_rows", gen_sqanti_case(rng)))
     # printed attribute lists of transcript lines: reference transcripts with stale / repeated Canonical attributes
     cases.append(("attr_tables", {}))
     for _ in range(350 if quick else 4000):
@@ -1049,6 +1309,55 @@ def gen_cases(ctx, rng=None):
     return cases
 
 
+def gen_sqanti_case(rng):
+    n = rng.choice([60, 90, 140])
+    chrom, introns = G.planted_sequence(rng, n=n, start=1)
+    # A / T runs so that the percentage columns are not all 0.00
+    cl = list(chrom)
+    for _k in range(rng.randint(1, 4)):
+        a = rng.randint(0, n - 1)
+        ln = rng.randint(3, 25)
+        base = rng.choice("AATTat")
+        cl[a:a + ln] = [base if rng.random() < 0.85 else c for c in cl[a:a + ln]]
+    chrom = "".join(cl)[:n]
+    mode = rng.random()
+    if mode < 0.75:
+        hs = rng.randint(1, n // 2)
+        he = rng.randint(hs + 5, n) if rng.random() < 0.8 else n + rng.choice([1, 3, 40])
+        reads = []
+        for _k in range(rng.randint(1, 3)):
+            a = rng.choice([1, 2, rng.randint(1, n - 12), rng.randint(1, n - 12)])
+            b = rng.choice([n, n - 1, rng.randint(a + 8, n), rng.randint(a + 8, n)])
+            inside = sorted(it for it in set(introns) if a < it[0] and it[1] < b and it[0] <= it[1])
+            chain = []
+            for it in inside:
+                if rng.random() < 0.6 and (not chain or chain[-1][1] + 1 < it[0]):
+                    chain.append(it)
+            bounds = [a] + [x for it in chain for x in (it[0] - 1, it[1] + 1)] + [b]
+            ex = [[bounds[i], bounds[i + 1]] for i in range(0, len(bounds), 2)]
+            reads.append({"exons": ex, "cexons": ex})
+        flank = rng.choice([20, 20, 20, 20, 0, 5])
+        kw = {"chrom": chrom, "start": hs, "end": he, "via": "loader", "kept": reads, "flank": flank,
+              "n": 5 if flank == 5 else rng.choice([20, 20, 20, 10, 4])}
+        lo = min([max(1, hs)] + [r["exons"][0][0] for r in reads])
+        hi = min(n, max([he] + [r["exons"][-1][1] for r in reads]))
+        rows = [[r["exons"], rng.choice("+-+-.")] for r in reads]
+        for _k in range(rng.randint(0, 3)):          # models assembled from parts of the reads: any span inside the region
+            a = rng.randint(lo, max(lo, hi - 3))
+            rows.append([[[a, rng.randint(a, hi)]], rng.choice("+-+-.")])
+        rows.append([[[lo, hi]], rng.choice("+-")])
+        kw["rows"] = rows
+        return kw
+    # a window given directly (the code as a function of the window): spans anywhere, also hard at its borders
+    start = rng.choice([1, 1, 1, 7, 1000])
+    rows = []
+    for _k in range(rng.randint(1, 4)):
+        a = rng.choice([start, start + 1, start + rng.randint(0, n - 2)])
+        b = rng.choice([start + n - 1, start + n - 2, rng.randint(a, start + n - 1)])
+        rows.append([[[a, max(a, b)]], rng.choice("+-+-.")])
+    return {"seq": rng.choice([chrom, chrom, chrom, chrom, ""]), "start": start, "n": rng.choice([20, 20, 10, 5]), "rows": rows}
+
+
 def novel_chain(rng):
     """-> (sequence, sorted disjoint introns inside it); sites: all '+', all '-', none, or mixed"""
     k = rng.randint(1, 4)
@@ -1073,6 +1382,8 @@ def nontrivial(op, kw, mo):
         return mo != "."
     if op in ("canon_history", "model_info", "read_fields"):
         return any(x in (True, "True") for x in mo["out"])
+    if op == "sqanti_rows":
+        return any(r[1] for r in mo["out"])
     if op == "attr_lines":
         # a reference transcript that carries a Canonical attribute is printed with a recomputed definite flag
         ref_has = {t["id"] for g in kw["genes"] for t in g["transcripts"] if any(k == "Canonical" for k, _ in t["attrs"])}
@@ -1162,7 +1473,12 @@ def correspondence(ctx):
             continue
         io = vlib.canon(impl_call(op, kw))
         ctx.traces_validated += 1
-        mo = canon_model_out(op, mo)
+        mo = canon_model_out(op, mo, kw.get("n") if op == "sqanti_rows" else None)
+        if op == "sqanti_rows":
+            ctx.count("sqanti_rows:%s" % ("loader:flank=%d" % kw["flank"] if "kept" in kw else "window"))
+            if isinstance(io, dict) and "out" in io:
+                for (_ex, st_), r_ in zip(kw["rows"], io["out"]):
+                    ctx.count("sqanti_rows:strand%s:%s" % (st_, "NA" if r_[1] is None else ("empty" if r_[1] == "" else ("full" if len(r_[1]) == kw["n"] else "clipped"))))
         if op == "attr_lines":
             mo = attr_canon_model_out(model_kw(op, kw), mo)
             ctx.count("attr_lines:path:%s:check=%s" % (kw["path"], kw["check"]))
@@ -1173,6 +1489,10 @@ def correspondence(ctx):
         if op in ("canon_history", "model_info") and "chrom" in kw and kw["end"] > len(kw["chrom"]):
             ctx.count("%s:window_ends_beyond_contig%s" % (op, ":loader" if kw.get("via") else ""))
         if op in ("canon_history", "model_info", "read_fields", "detector"):
+            if op == "canon_history":
+                for q_ in kw["queries"]:
+                    if q_[1] == "." and q_[0]:
+                        ctx.count("canon_history:queries_on_unknown_strand")
             if isinstance(io, dict) and "out" in io:
                 for x in io["out"]:
                     ctx.count("%s:answer:%s" % (op, json.dumps(x)))
@@ -1223,6 +1543,16 @@ def oracle_case(mode, kw):
         got = {"canon_history": impl_canon_history, "model_info": impl_model_info, "read_fields": impl_read_fields}[mode](kw)["out"]
         if mode == "canon_history":
             for i, (q, s) in enumerate(kw["queries"]):
+                # (0) unknown strand: the answer must not depend on the orientation of the locus (C11): the mirrored chain on
+                # the reverse complement, asked against a fresh gene_info
+                if s == "." and q and seq and all(pair_at(seq, tuple(it), start) for it in q):
+                    o_, L_ = start - 1, len(seq)
+                    mq = sorted([o_ + L_ + 1 - (it[1] - o_), o_ + L_ + 1 - (it[0] - o_)] for it in q)
+                    mir = impl_canon_history({"seq": revcomp_any(seq), "start": start, "queries": [[mq, "."]]})["out"][0]
+                    if mir != got[i]:
+                        return ("canonical_dot_flag_not_mirror_invariant",
+                                {"query": i, "introns": q, "answer": got[i], "mirror_answer": mir, "mirror_introns": mq,
+                                 "pairs": [pair_at(seq, tuple(it), start) for it in q]})
                 # (1) history independence: the same query against a fresh gene_info
                 fresh = impl_canon_history(dict(kw, queries=[[q, s]]))["out"][0]
                 if fresh != got[i]:
@@ -1246,6 +1576,31 @@ def oracle_case(mode, kw):
             if got[i] != str(exp):
                 return ("flag_value", {"index": i, "flag": got[i], "expected": str(exp), "strand": s, "introns": introns,
                                        "pairs": [pair_at(seq, it, start) for it in introns]})
+        return None
+    if mode == "sqanti_rows":
+        # the clause is evaluated where the statement applies: a gene region as the pipeline loads it with --sqanti_output
+        # (loader, flank >= n, kept reads), rows inside the span of the region; expected values from the whole chromosome
+        if "kept" not in kw or not kw["kept"] or kw.get("flank", 0) < kw["n"]:
+            return None
+        got = impl_sqanti_rows(kw)["out"]
+        chrom, n_ = kw["chrom"], kw["n"]
+        for i, (exons, s) in enumerate(kw["rows"]):
+            ex = tl(exons)
+            introns = [(ex[j][1] + 1, ex[j + 1][0] - 1) for j in range(len(ex) - 1) if ex[j][1] + 1 < ex[j + 1][0]]
+            exp = expected_flag(chrom, introns, s, 1)
+            exp = True if exp == "Unspliced" else exp
+            if exp is not None and got[i][0] != str(exp):
+                return ("sqanti_all_canonical", {"row": i, "strand": s, "introns": introns, "column": got[i][0], "expected": str(exp)})
+            if s in "+-":
+                w = chrom_downstream(chrom, ex[0][0], ex[-1][1], s, n_)
+                pc = round(downstream_count(w, s) / float(n_), 9)
+                if got[i][1] != w or got[i][2] is None or abs(got[i][2] - pc) > 1e-9:
+                    return ("sqanti_downstream_window", {"row": i, "strand": s, "first": ex[0][0], "last": ex[-1][1],
+                                                         "seq_A_downstream_TTS": got[i][1], "perc_A_downstream_TTS": got[i][2],
+                                                         "expected_seq": w, "expected_perc": pc, "chr_len": len(chrom)})
+            elif got[i][1] is not None or got[i][2] is not None:
+                return ("sqanti_downstream_unknown_strand", {"row": i, "strand": s, "seq_A_downstream_TTS": got[i][1],
+                                                             "perc_A_downstream_TTS": got[i][2]})
         return None
     if mode == "detector":
         seq = kw["seq"]
@@ -1386,6 +1741,17 @@ WITNESSES = [
     ("model_info", {"chrom": "AAAAGTCCCCCCAGTTTT", "start": 12, "end": 18, "via": "loader",
                     "kept": [{"exons": [[1, 4], [15, 18]], "cexons": [[1, 4], [15, 18]]}],
                     "models": [{"exons": [[1, 4], [15, 18]], "strand": "+", "attr": None}]}),
+    # Props/C18Reflect dot_flag_orig_reflection_witness (audit-2 C11-G3): a GT-AG intron reported on the unknown strand; before the
+    # repair '.' was looked up as '-': False here, True on the mirror image (the CT-AC intron of the reverse complement)
+    ("canon_history", {"seq": "AAAAGTCCCCCCAGTTTT", "start": 1, "queries": [[[[5, 14]], "."]]}),
+    ("canon_history", {"seq": "AAAACTGGGGGGACTTTT", "start": 1, "queries": [[[[5, 14]], "."]]}),
+    ("model_info", {"seq": "AAAAGTCCCCCCAGTTTT", "start": 1, "models": [{"exons": [[1, 4], [15, 18]], "strand": ".", "attr": None}]}),
+    ("read_fields", {"check": True, "seq": "AAAAGTCCCCCCAGTTTT", "start": 1, "reads": [[[[1, 4], [15, 18]], "."]]}),
+    # Props/C18Downstream downstream_window_orig_witness (audit-2 C11-G1): gene region 25..36, read / model 21-40 on a 60-base contig
+    ("sqanti_rows", {"chrom": "AAAAAAAAAATTTTTTTTTT" + "C" * 20 + "TTTTTTTTTTAAAAAAAAAA", "start": 25, "end": 36, "via": "loader", "flank": 20,
+                     "n": 20, "kept": [{"exons": [[21, 40]], "cexons": [[21, 40]]}], "rows": [[[[21, 40]], "+"], [[[21, 40]], "-"]]}),
+    ("sqanti_rows", {"chrom": "AAAAAAAAAATTTTTTTTTT" + "C" * 20 + "TTTTTTTTTTAAAAAAAAAA", "start": 25, "end": 36, "via": "loader", "flank": 20,
+                     "n": 20, "kept": [{"exons": [[30, 40]], "cexons": [[30, 40]]}], "rows": [[[[30, 40]], "-"], [[[30, 40]], "."]]}),
     # Props/C18Attr canonical_attr_orig_witness: the reference transcript T already carries a (stale) Canonical "False"; before
     # 'Canonical' entered the skip list of set_gene_attributes the printed line was ... Canonical "True"; exons "2"; Canonical "False";
     ("attr_lines", {"chrom": "AAAAGTCCCCCCAGTTTT", "start": 1, "end": 18, "path": "extended", "check": True, "novel": [],
@@ -1427,40 +1793,62 @@ def oracle(ctx, disagreements, broken):
         n += 1
         if r:
             per_kind[(r[0], op)] = per_kind.get((r[0], op), 0) + 1
-            if per_kind[(r[0], op)] <= 5:        # a few inputs per failure class; the pipeline scenarios still get their turn
+            if per_kind[(r[0], op)] <= 3:        # a few inputs per failure class; the pipeline scenarios still get their turn
                 ctx.fail(r[0], {"mode": op, "args": kw}, r[1])
-            if len(ctx.failures) > 15:
+            if len(ctx.failures) > 40:
                 break
     ctx.extra["oracle_inprocess_cases"] = n
     if per_kind:
         ctx.extra["oracle_inprocess_failures_per_class"] = {"%s/%s" % k: v for k, v in per_kind.items()}
     # 4. the real pipeline on synthetic genomes with antisense gene pairs sharing introns
-    n_runs = 18 if ctx.tier == "quick" else 180
+    n_runs = 16 if ctx.tier == "quick" else 180
     if broken:
         n_runs *= 2
     tot = {}
     runs = []
+    schedule = []
     for i in range(n_runs):
         name, args, genedb = PIPE_CONFIGS[i % len(PIPE_CONFIGS)]
-        inp = {"seed": ctx.seed * 1000 + i, "args": args, "genedb": genedb, "threads": 2 if name == "threads2" else 1,
-               "data_type": "pacbio_ccs" if name == "pacbio" else "nanopore",
+        inp = {"seed": ctx.seed * 1000 + i, "args": args, "genedb": genedb, "threads": 1, "data_type": "nanopore",
                "lower_frac": [0.0, 0.5, 1.0][(i // len(PIPE_CONFIGS) + i) % 3], "hashseed": i % 3, "n_chroms": 2,
                "loci": 4, "config": name}
+        inp.update(PIPE_OPTS.get(name, {}))
+        schedule.append((name, inp))
+    # crafted novel loci for the strand clause (audit-2 G-C18-3): without annotation, and with one + the SQANTI-like table
+    for j in range(2 if ctx.tier == "quick" else 24):
+        with_db = j % 2 == 1
+        schedule.append(("strand_loci" + ("+sqanti" if with_db else "_nogenedb"),
+                         {"seed": ctx.seed * 1000 + 700 + j, "dataset": "strand", "genedb": with_db, "prefix": "X1",
+                          "args": ["--report_canonical", ["all", "auto", "only_stranded"][(j // 2) % 3]] + (["--sqanti_output"] if with_db else []),
+                          "sqanti": with_db, "data_type": "pacbio_ccs" if j % 4 >= 2 else "nanopore", "hashseed": j % 3,
+                          "config": "strand_loci"}))
+    # the toy data of /repo (simulated ONT reads: indels next to junctions, reads beyond genes)
+    for j in range(1 if ctx.tier == "quick" else 3):
+        schedule.append(("toy", {"seed": j, "dataset": "toy", "genedb": True, "prefix": "X1", "config": "toy", "threads": 1 + j,
+                                 "args": [["--report_canonical", "all", "--sqanti_output"], [], ["--high_memory"]][j],
+                                 "sqanti": j == 0}))
+    n_before = len(ctx.failures)         # the pipeline scenarios get their turn whatever the in-process search found
+    pipe_kinds = {}
+    for name, inp in schedule:
         fails, stats = pipeline_case(inp)
         runs.append(name)
         for k, v in stats.items():
             tot[k] = tot.get(k, 0) + v
-        for kind, detail in fails[:5]:
-            ctx.fail(kind, {"mode": "pipeline", "args": inp}, detail)
-        if len(ctx.failures) > 15:
+        for kind, detail in fails:
+            pipe_kinds[kind] = pipe_kinds.get(kind, 0) + 1
+            if pipe_kinds[kind] <= 3:
+                ctx.fail(kind, {"mode": "pipeline", "args": inp}, detail)
+        if len(ctx.failures) - n_before > 15:
             break
+    if pipe_kinds:
+        ctx.extra["oracle_pipeline_failures_per_class"] = pipe_kinds
     # 4b. the reference is itself an IsoQuant output: second run with --genedb = the extended annotation of the first
     # (--check_canonical) run, one reference Canonical value falsified; clause: exactly one Canonical attribute per transcript
     # line and it equals the recomputed value
     rerun_cfg = [c for c in PIPE_CONFIGS if c[2] and c[0] in ("default", "rc_all", "high_memory", "threads2", "pacbio")]
-    n_rerun = 4 if ctx.tier == "quick" else 30
+    n_rerun = 3 if ctx.tier == "quick" else 30
     for i in range(n_rerun * (2 if broken else 1)):
-        if len(ctx.failures) > 15:
+        if len(ctx.failures) - n_before > 15:
             break
         name, args, _ = rerun_cfg[i % len(rerun_cfg)]
         inp = {"seed": ctx.seed * 1000 + 500 + i, "args": args, "genedb": True, "threads": 2 if name == "threads2" else 1,
@@ -1476,6 +1864,13 @@ def oracle(ctx, disagreements, broken):
     ctx.extra["oracle_wall_s"] = round(ctx.elapsed() - t_start, 1)
     # smallest failing input first (it becomes the head of the replay file)
     ctx.failures.sort(key=lambda f: (f["input"].get("mode") == "pipeline", len(json.dumps(f["input"], default=str))))
+    # ... one input of every failure class (in-process and pipeline) before the second input of any class
+    seen_rank, ranked = {}, []
+    for f in ctx.failures:
+        k_ = (f["kind"], f["input"].get("mode") == "pipeline")
+        seen_rank[k_] = seen_rank.get(k_, 0) + 1
+        ranked.append((seen_rank[k_], f))
+    ctx.failures[:] = [f for _, f in sorted(ranked, key=lambda x: x[0])]
 
 
 def replay(ctx, failure):
